@@ -57,6 +57,14 @@ func H_C03_binary() {
 		want[k] = refBinary(op, ae[bsrc(idx, da)], be[bsrc(idx, db)])
 	}
 	checkTensor(op, y, S, want)
+	scale := make([]float64, len(want))
+	for k := range scale {
+		unravel(k, S, idx)
+		if op == "Add" || op == "Sub" {
+			scale[k] = absF(ae[bsrc(idx, da)]) + absF(be[bsrc(idx, db)])
+		}
+	}
+	checkTensorS(op+" (at the magnitude of the operands)", y, S, want, scale)
 	// identical to broadcasting explicitly first
 	ab, err1 := a.Broadcast(S)
 	bb, err2 := b.Broadcast(S)
